@@ -44,6 +44,9 @@ def outcomes():
         ("return-str", lambda m: (160, b"")),
         ("return-int", lambda m: (160, b"")),
         ("return-dict", lambda m: (160, b"")),
+        # a Message, but not one that can be a response: a request code (the DELETE / DELETED slip) or the empty code
+        ("return-request-code-message", lambda m: (160, None)),
+        ("return-empty-code-message", lambda m: (160, None)),
         ("raise-ValueError", lambda m: (160, b"")),
         ("raise-KeyError", lambda m: (160, b"")),
         ("raise-custom", lambda m: (160, b"")),
@@ -160,6 +163,10 @@ def build_site(loop, hlog):
                 return 42
             if name == "return-dict":
                 return {"code": 69, "x": secret}
+            if name == "return-request-code-message":
+                return aiocoap.Message(code=aiocoap.DELETE, payload=b"body")
+            if name == "return-empty-code-message":
+                return aiocoap.Message(code=aiocoap.EMPTY)
             if name == "raise-ValueError":
                 raise ValueError(secret)
             if name == "raise-KeyError":
